@@ -579,7 +579,7 @@ func c05Parent(prop, tier string) int {
 	if tier == "thorough" {
 		budget = ck.ThoroughBudget
 	}
-	total, crashes, err := explore.RunSharded(explore.Options{Property: prop, Tier: tier, Shards: 16, Budget: budget})
+	total, crashes, err := explore.RunSharded(explore.Options{Property: prop, Tier: tier, Shards: 16, Budget: budget, Horizon: budget + 30*time.Minute})
 	if err != nil {
 		fmt.Println("HARNESS-ERROR:", err)
 		return 2
@@ -589,7 +589,7 @@ func c05Parent(prop, tier string) int {
 		fmt.Println("HARNESS-ERROR: narrowed build missing:", err)
 		return 2
 	}
-	t2, c2, err := explore.RunSharded(explore.Options{Property: prop, Tier: tier, Shards: 16, Budget: budget, Exe: narrowExe})
+	t2, c2, err := explore.RunSharded(explore.Options{Property: prop, Tier: tier, Shards: 16, Budget: budget, Horizon: budget + 30*time.Minute, Exe: narrowExe})
 	if err != nil {
 		fmt.Println("HARNESS-ERROR:", err)
 		return 2
